@@ -17,10 +17,16 @@
                                                rational arithmetic, clamped to +-2^30), ex = no fraction
                                                (tr is used by the design spec only)
                  [k |-> "r", v]                raw payload bytes
-                 [k |-> "q", n]                quaternion component as integer numerator (common scale)
+                 [k |-> "q", n, u]             quaternion component as integer numerator (common scale;
+                                               u = floor(4096 * length of the argument) is used by the
+                                               design spec only: the layout normalises)
                  [k |-> "l", v]                list of integers (base stations)
        out   : "sent" | "raised" | "none"
-       pks   : packets handed to the link, each [h |-> header byte, data |-> Seq(0..255)]
+       pks   : the packets the link puts on the wire for the packet objects this call handed to it, each
+               [h |-> header byte, data |-> Seq(0..255)] -- header and data as the link reads them from
+               the object when it serialises it: inside send_packet for most drivers, afterwards on the
+               link's own thread for a link that queues the object (RadioDriver).  "The command the
+               library emits" is what reaches the wire, not what the object held at hand-over
 
    Layout(cmd, ver, xmode) is the firmware's wire layout.  Every field names its source; sources
    are independent of the struct.pack strings under test:
